@@ -2,6 +2,7 @@ import SlotVerif.Model.Progress
 import SlotVerif.Proofs.Spec
 import SlotVerif.Props.C08
 import SlotVerif.Proofs.UfWrite
+import SlotVerif.Proofs.UfTotal
 /-!
 # C13 — Equalities are never lost and old handles stay valid
 
@@ -141,6 +142,23 @@ theorem handles_survive_all_writes (ws : List (Nat × AppId)) (uf uf' : List App
     (∀ j k r q, Snap.Resolves uf j r → Snap.Resolves uf k q → r.id = q.id →
       ∃ r' q', Snap.Resolves uf' j r' ∧ Snap.Resolves uf' k q' ∧ r'.id = q'.id) :=
   Snap.writes_monotone ws uf uf' hw hl h
+
+/-- whatever resolves with some amount of fuel resolves with the fuel `find` uses (the ids on a resolving chain are pairwise
+distinct; pigeonhole) -/
+theorem fixed_fuel_suffices {uf : List AppId} {f j : Nat} {r : AppId} (h : Snap.ufGetL uf f j = some r) :
+    Snap.ufGetL uf uf.length j = some r := Snap.get_fixed_fuel h
+
+/-- **`find` terminates on every id ever allocated, in every reachable table**: start from the empty union-find, perform any
+sequence of valid writes (allocations, merges, shrinks in any order and number); then `find_applied_id` — with its fixed fuel
+— returns for every invocation of every id below the table's length -/
+theorem find_total_after_writes (ws : List (Nat × AppId)) (uf' : List AppId)
+    (h : Snap.applyWrites [] ws = some uf') (classes : List SClass) (a : AppId) (ha : a.id < uf'.length) :
+    (Snap.find { uf := uf', classes := classes } a).isSome = true := by
+  have ht := Snap.writes_total ws [] uf' Snap.ufWF_nil Snap.leaderId_nil Snap.total_nil h
+  obtain ⟨r, hr⟩ := ht a.id ha
+  unfold Snap.find
+  rw [Snap.ufGet_eq_L]
+  simp [hr]
 
 /-- non-vacuity: two classes are allocated, class 1 (slots 0, 4) is merged into class 0 (slots 8, 12) with the arguments
 exchanged, then class 0 loses slot 12; all four writes pass the guards -/
